@@ -561,8 +561,6 @@ theorem retryLoop_solo (sh : Shared) (c : Cfg) (hsync : c.sync = true) (size fue
       dsimp only at h ⊢
       ifboth
       · cases h; exact Solo.ret _ _
-      obtain ⟨last, hl, h⟩ := bind_ok h
-      refine Solo.bind' (solo_liftM hl) ?_
       ifboth
       · cases h; exact Solo.ret _ _
       obtain ⟨u, hu, h⟩ := bind_ok h
